@@ -183,6 +183,9 @@ def direct(case, obs):
             fails.append(("not-reproducible", "same seed, same history: decisions differ"))
         if obs["a1"] != obs["b"]:
             fails.append(("depends-on-content", "histories that differ only in operation content and outcome were sampled differently"))
+        if obs.get("a_threads") is not None and obs["a1"] != obs["a_threads"]:
+            fails.append(("depends-on-thread", "same seed, same history, every operation on a thread of its own: the decisions "
+                          "differ from the single-threaded run (%d kept vs %d)" % (obs["a_threads"].count("save"), obs["a1"].count("save"))))
     return fails
 
 
